@@ -118,7 +118,10 @@ func VfH_C12_sideways() {
 }
 
 // vfClusters lays out n glyphs into consecutive clusters (GlyphCount consistent); returns the run.
-func vfClusters(n int) []Glyph {
+func vfClusters(n int) []Glyph { return vfClustersAt(n, 0) }
+
+// vfClustersAt: cluster values are absolute text indices starting at base (runs in the middle of a paragraph)
+func vfClustersAt(n, base int) []Glyph {
 	gs := make([]Glyph, n)
 	for i := 0; i < n; {
 		size := 1 + vfChoice("clusterSize", n-i)
@@ -126,7 +129,7 @@ func vfClusters(n int) []Glyph {
 			gs[k] = vfGlyphMetrics()
 			gs[k].GlyphCount = size
 			gs[k].RuneCount = 1 + vfChoice("runeCount", 2)
-			gs[k].ClusterIndex = i // any in-range text index, equal inside the cluster
+			gs[k].ClusterIndex = base + i // absolute text index, equal inside the cluster
 		}
 		for k := i + 1; k < i+size; k++ {
 			gs[k].RuneCount = gs[i].RuneCount
@@ -203,11 +206,12 @@ func VfH_C12_wordspacing() {
 		max = 4
 	}
 	n := 1 + vfChoice("nglyphs", max)
-	text := make([]rune, n)
+	off := vfChoice("runOffset", 3) // the run may start in the middle of the paragraph
+	text := make([]rune, off+n+1)
 	for i := range text {
 		text[i] = vfWordRunes[vfInt("rune", 0, len(vfWordRunes)-1)]
 	}
-	o := Output{Direction: vfDirection(), Glyphs: vfClusters(n)}
+	o := Output{Direction: vfDirection(), Glyphs: vfClustersAt(n, off), Runes: Range{Offset: off, Count: n}}
 	vert := o.Direction.IsVertical()
 	before := append([]Glyph(nil), o.Glyphs...)
 	sp := fixed.Int26_6(vfInt("spacing", -(1 << 12), 1<<12))
